@@ -92,6 +92,9 @@ type Backend struct {
 	HealthHold   atomic.Pointer[chan struct{}] // when set, health answers wait for close(ch)
 	ModelsStatus atomic.Int32
 	modelsBody   atomic.Value // []byte
+	// HealthRaw, when set to a non-empty []byte, is written verbatim as the answer to a health probe
+	// and the connection is closed (for answers that are not well-formed HTTP)
+	HealthRaw atomic.Value
 
 	// OnAttempt decides what to do with a proxied request (and is where the harness logs it).
 	OnAttempt func(r *Recv) Plan
@@ -307,6 +310,10 @@ func (b *Backend) handleConn(c net.Conn) {
 			}
 			if ch := b.HealthHold.Load(); ch != nil {
 				<-*ch
+			}
+			if raw, ok := b.HealthRaw.Load().([]byte); ok && len(raw) > 0 {
+				c.Write(raw)
+				return
 			}
 			st := int(b.HealthStatus.Load())
 			if st == 0 { // 0 = drop the connection
